@@ -122,7 +122,7 @@ func RunLedger(property string, tier Tier, profiles []*explore.Profile, require 
 		perProfile = append(perProfile, map[string]interface{}{
 			"profile": p.Name, "states": r.States, "transitions": r.Transitions, "legs": r.Legs,
 			"depth_bound": p.Depth, "depth_completed": r.DepthCompleted, "exhaustive_within_bound": r.Exhaustive,
-			"cap_hit": r.CapHit, "new_states_per_depth": r.PerDepthStates, "wall_s": r.Wall.Seconds(),
+			"cap_hit": r.CapHit, "new_states_per_depth": compressDepths(r.PerDepthStates), "wall_s": r.Wall.Seconds(),
 		})
 		for _, s := range r.Samples {
 			samples = append(samples, map[string]interface{}{"profile": p.Name, "history": s})
@@ -171,4 +171,17 @@ func C01(tier Tier) int {
 		"refund-delivered:ESDTTransfer", "delivery-refused-legitimately",
 		"delivered:MultiESDTNFTTransfer:k256-fungible", "delivered:MultiESDTNFTTransfer:k257-mixed", "delivered:MultiESDTNFTTransfer:k300-nft",
 	})
+}
+
+// compressDepths renders the per-depth counts; the scripted prefix of a scripted profile (one new
+// state per level) is summarised.
+func compressDepths(d []int64) interface{} {
+	if len(d) <= 40 {
+		return d
+	}
+	i := 0
+	for i < len(d) && d[i] == 1 {
+		i++
+	}
+	return map[string]interface{}{"scripted_levels_with_one_new_state": i, "then": d[i:]}
 }
